@@ -125,6 +125,25 @@ class DynGraph(nx.Graph):
         self.edge_removal = edge_removal
         self.directed = False
 
+    def clear(self):
+        """Remove all nodes and interactions from the graph.
+
+        This also removes the name, all graph and node attributes, the snapshot
+        ids and the interaction stream.
+        """
+        nx.Graph.clear(self)
+        self.time_to_edge = defaultdict(int)
+        self.snapshots = {}
+
+    def clear_edges(self):
+        """Remove all interactions from the graph without altering nodes.
+
+        The snapshot ids and the interaction stream are emptied as well.
+        """
+        nx.Graph.clear_edges(self)
+        self.time_to_edge = defaultdict(int)
+        self.snapshots = {}
+
     def nodes_iter(self, t=None, data=False):
         """Return an iterator over the nodes with respect to a given temporal snapshot.
 
